@@ -1,1 +1,2 @@
 import ScrapliProps.C15
+import ScrapliProps.C15Lemmas
